@@ -153,6 +153,11 @@ def instances(tier, seed):
         for outer in ("Array(2, {})", "RepeatUntil(lambda o, l, c: len(l) == 2, {})"):
             out.append(dict(name="_index in a delimiter length around a repeater: %s" % outer.format("FixedSized(this._index + 2, %s)" % inner),
                             params=dict(kind="indexfixed", outer=outer, inner=inner)))
+    for k in ("Struct", "LazyStruct"):
+        for shape in ("flat", "nested", "root"):
+            out.append(dict(name="forward reference to a member whose name starts with an underscore: %s %s" % (k, shape), params=dict(kind="private", scope=k, shape=shape)))
+    for rep in ("Array(3, {}, discard=True)", "RepeatUntil(lambda o, l, c: c._index == 2, {}, discard=True)", "RepeatUntil(lambda o, l, c: c._index == 2, {})", "GreedyRange({}, discard=True)"):
+        out.append(dict(name="_index seen by the elements of %s when building and when parsing" % rep.format("..."), params=dict(kind="indexdiscard", rep=rep)))
     for api_ in ("parse", "build", "sizeof"):
         for k in INNER_KINDS + ["FocusedSeq"]:
             out.append(dict(name="flags %s in %s" % (api_, k), params=dict(kind="flags", api=api_, scope=k)))
@@ -321,6 +326,46 @@ def harness(ctx, C, p):
         v = r.value
         ctx.check("after a member that had to be parsed because it cannot be sized, the mode flags still say 'parsing' (here and in nested scopes)",
                   api.and_terms([ctx.eq(v["fp"], data[1]), v["fs"] is None, ctx.eq(v["n"]["q"], data[2]), v["n"]["w"] is None, ctx.eq(v["t"], data[3])]))
+        return "ok"
+    if p.get("kind") == "private":
+        # members are scope entries whatever their spelling: a Rebuild declared BEFORE '_payload' sees the supplied value while building
+        k, shape = p["scope"], p["shape"]
+        src_ = {"flat": "%s('n'/Rebuild(Byte, len_(this._payload)), '_payload'/Bytes(this.n), 't'/Byte)",
+                "nested": "%s('hdr'/Struct('len'/Rebuild(Byte, len_(this._._body))), '_body'/Bytes(this.hdr.len), 't'/Byte)",
+                "root": "%s('hdr'/Struct('in'/Struct('len'/Rebuild(Byte, len_(this._root._body)))), '_body'/Bytes(this.hdr['in'].len), 't'/Byte)"}[shape] % k
+        d = mk(C, src_)
+        n = ctx.choice("len", [0, 1, 3])
+        body, t = ctx.bytes("body", n), ctx.int("t", 0, 255)
+        key = "_payload" if shape == "flat" else "_body"
+        v = {key: body, "t": t}
+        if shape == "nested":
+            v["hdr"] = dict(len=200)
+        elif shape == "root":
+            v["hdr"] = {"in": dict(len=200)}
+        else:
+            v["n"] = 200
+        rb = api.outcome(d.build, v)
+        ctx.check("build resolves the forward reference to the underscore-named member (got %s)" % ("ok" if rb.ok else type(rb.exc).__name__ + ": " + str(rb.exc)[:60]), rb.ok)
+        from symx.values import mkbytes
+        ctx.check("layout: rebuilt length, the member, the trailer", ctx.eq(rb.value, mkbytes([n]) + body + mkbytes([t])))
+        if k == "LazyStruct":
+            return "ok"        # parsing cross references between members of a LazyStruct is a documented restriction
+        rp = api.outcome(d.parse, rb.value)
+        ctx.check("parse of the built bytes succeeds and yields the member", rp.ok and ctx.fork(ctx.eq(rp.value[key], body)) and ctx.fork(ctx.eq(rp.value["t"], t)))
+        return "ok"
+    if p.get("kind") == "indexdiscard":
+        # every repeater publishes the element's position as _index, while building exactly as while parsing, discard or not
+        d = mk(C, p["rep"].format("Struct('v'/Bytes(this._index + 1), 'i'/Computed(this._index))"))
+        from symx.values import mkbytes
+        els = [ctx.bytes("e%d" % i, i + 1) for i in range(3)]
+        rb = api.outcome(d.build, [dict(v=e) for e in els])
+        ctx.check("build accepts elements laid out by their index (got %s)" % ("ok" if rb.ok else type(rb.exc).__name__ + ": " + str(rb.exc)[:60]), rb.ok)
+        ctx.check("layout: element i occupies i + 1 bytes", ctx.eq(rb.value, els[0] + els[1] + els[2]))
+        st = ctx.stream(rb.value)
+        rp = api.outcome(d.parse_stream, st)
+        ctx.check("parse of the built bytes succeeds and consumes all of them", rp.ok and st.tell() == 6)
+        if "discard" not in p["rep"]:
+            ctx.check("parsed elements carry their index", [x.i for x in rp.value] == [0, 1, 2] and ctx.fork(ctx.eq([x.v for x in rp.value], els)))
         return "ok"
     if p.get("kind") == "indexfixed":
         src_ = p["outer"].format("FixedSized(this._index + 2, %s)" % p["inner"])
